@@ -502,7 +502,7 @@ def main(tier):
     chk.assumptions = ASSUME
     js = jobs(common.level("C06", tier))
     if common.level("C06", tier) == "deep":
-        js = common.widen(js, by=(1,))
+        js = common.widen(js, by=(1, 2))
     js = common.rotate(js)
     for i, j in enumerate(js):
         if i % max(1, len(js) // 5) == 0:
